@@ -10,7 +10,10 @@ becomes `Output.stdout` / `Output.stderr` and whose second target is the supplie
 which a pipe reports once it is empty and every write end is closed, i.e. the child is done with its script.
 
 Steps are byte-granular; a read or write of several bytes is a sequence of such steps, so the reachable states of any
-coarser granularity are among the reachable states here. Which process/thread moves next is not determined: `succs` lists
+coarser granularity are among the reachable states here. How the real copier chunks the bytes for the supplied writer (one
+`write` per pipe read of at most 8 KiB) does not matter for what that writer ends up holding: for the writers of write.rs
+this is `C19.mapped_output_independent_of_flushes` / `tee_full_input_with_flushes` (any chunking, any flushes). That the
+copier is `std::io::copy` — which calls nothing but `write` on the writer — is read from the source (`Gen.Sites.copierBodies`). Which process/thread moves next is not determined: `succs` lists
 every enabled step (the scheduler picks one).
 
 `Mode.parallel` is the code (both copier threads are spawned inside one scope before either is joined — tied to the source by
